@@ -9,8 +9,10 @@ import (
 	"encoding/hex"
 	"encoding/json"
 	"fmt"
+	"io"
 	"net/http"
 	"net/url"
+	"strconv"
 	"strings"
 	"unicode/utf8"
 
@@ -194,6 +196,10 @@ type Req struct {
 	// Host is the request's Host ("" means server.example); TLS marks an https request.
 	Host string `json:"host,omitempty"`
 	TLS  bool   `json:"tls,omitempty"`
+	// Body: 0 = no message body (nil Body, ContentLength 0); n > 0 = a body of n bytes with Content-Length: n;
+	// -1 = a body of unknown length (chunked / an HTTP/2 stream left open), ContentLength -1 and no Content-Length field;
+	// -2 = http.NoBody with ContentLength 0 (what clients that "send no body" explicitly produce).
+	Body int `json:"body,omitempty"`
 }
 
 func (r Req) Get(key string) ([]Val, bool) {
@@ -262,6 +268,18 @@ func (r Req) HTTP() *http.Request {
 	if r.TLS {
 		hr.TLS = &tls.ConnectionState{}
 	}
+	switch {
+	case r.Body > 0:
+		hr.Body, hr.ContentLength = io.NopCloser(strings.NewReader(strings.Repeat("x", r.Body))), int64(r.Body)
+		if _, ok := h["Content-Length"]; !ok {
+			h["Content-Length"] = []string{strconv.Itoa(r.Body)}
+		}
+	case r.Body == -1:
+		hr.Body, hr.ContentLength = io.NopCloser(strings.NewReader("{}")), -1
+		hr.TransferEncoding = []string{"chunked"}
+	case r.Body == -2:
+		hr.Body = http.NoBody
+	}
 	switch r.Proto {
 	case "1.0":
 		hr.Proto, hr.ProtoMajor, hr.ProtoMinor = "HTTP/1.0", 1, 0
@@ -282,6 +300,9 @@ func (r Req) Brief() string {
 	}
 	if r.Host != "" {
 		b.WriteString(" host=" + r.Host)
+	}
+	if r.Body != 0 {
+		b.WriteString(fmt.Sprintf(" body=%d", r.Body))
 	}
 	if r.TLS {
 		b.WriteString(" tls")
